@@ -1,6 +1,7 @@
 package main
 
 import (
+	"encoding/json"
 	"fmt"
 	"strings"
 	"time"
@@ -26,6 +27,8 @@ func newTokenizer(kind string) tokenizers.ITokenizer {
 		t.SymbolState().Add("=:=", tokenizers.Symbol)
 		t.SymbolState().Add("<!--", tokenizers.Symbol)
 		t.SymbolState().Add("!>>>", tokenizers.Keyword)
+		t.SymbolState().Add("<![CDATA[", tokenizers.Symbol)
+		t.SymbolState().Add("===========", tokenizers.Symbol)
 		return t
 	case "generic-arrows":
 		// a narrower interval registered over the default word interval of the non-Latin range
@@ -172,9 +175,54 @@ func execTok(seg []Ev) []Ev {
 		if oc == "aborted" {
 			continue // never recorded: the case was not executed
 		}
+		tokCount++
+		if oc == "ok" && len(input) < 6000 && (tokCount%6 == 0 || len(input) >= 60) {
+			tokAfterglow(e, kind, bits, input)
+		}
 		out = append(out, e)
 	}
 	return out
+}
+
+var tokCount = 0
+
+func tokRender(ts []*tokenizers.Token) string {
+	b, _ := json.Marshal(tokJSON(ts))
+	return string(b)
+}
+
+// tokAfterglow: (1) the list a tokenizer returned stays what it was when the same tokenizer tokenizes another text;
+// (2) a tokenizer that ran with options and has them switched off again yields the option-free stream of a new one;
+// (3) across cases: the list and the tokenizer of this case are looked at again after the next case (hold).
+func tokAfterglow(e Ev, kind string, bits int, input string) {
+	bad := func(what, then, now string) {
+		if _, dup := e["held_what"]; !dup {
+			e["held_what"], e["held_then"], e["held_now"] = what, short(then), short(now)
+		}
+	}
+	guarded(func() {
+		tb := newTokenizer(kind)
+		setOpts(tb, 0)
+		base := tb.TokenizeBuffer(input)
+		then := tokRender(base)
+		tb.TokenizeBuffer("zz 9,<= 'q' {{x}}\n" + input + " tail")
+		if now := tokRender(base); now != then {
+			bad("token list after the same tokenizer tokenized another text", then, now)
+		}
+		to := newTokenizer(kind)
+		setOpts(to, bits|16|64)
+		withOpts := to.TokenizeBuffer(input)
+		thenOpts := tokRender(withOpts)
+		setOpts(to, 0)
+		again := to.TokenizeBuffer(input)
+		if now := tokRender(again); now != then {
+			bad("option-free stream of a tokenizer that ran the same text with options before", then, now)
+		}
+		if now := tokRender(withOpts); now != thenOpts {
+			bad("token list under options after the same tokenizer ran again", thenOpts, now)
+		}
+		hold("token list and tokenizer of the previous case ("+kind+")", func() string { return tokRender(base) + tokRender(tb.TokenizeBuffer(input)) })
+	})
 }
 
 // alphabets of significant characters per tokenizer (every class that selects a different state)
@@ -207,7 +255,7 @@ var tokSnippets = map[string][]string{
 	"generic":    {"a1 <= b-c # rest\nx", "-.5 . - 'q' \"r\" <> >= 12.5.6", "x-1 -x .a a. 1.", "пример 'стр' -", "'unterminated", "a\r\nb\n\rc\rd"},
 	"expression": {"a + b*2 - f(x, 'it''s') /* c */ <= 3.5e-2", "1e 1e+ 1.e5 .5 . - / /* open", "NOT x IS NULL and \"q\"\"r\" != 2 >> 1", "a/b /**/ c/", "x<>y<=z>=w<<1", "'abc\n'\r\n1", "a i\u017f null or x l\u0131ke 'y' and b li\u212ae c", "fal\u017fe x\uffffy <\u013d \u013c"},
 	"csv":        {"a,b,c\r\n1,\"x,y\",3\n", "\"a\"\"b\",,\r,\n\r\"", "a;b\rc\n\nd\"", "\"unterminated,\r\n", "поле,\"знач\"\"ение\"\n"},
-	"generic-custom": {"a=:=b=:c=d", "<!-- x --> <!- <! !>>> !>> !>", "=:=:=:<!--!>>>"},
+	"generic-custom": {"a=:=b=:c=d", "<!-- x --> <!- <! !>>> !>> !>", "=:=:=:<!--!>>>", "x<![CDATA[y]]> <![CDAT <![CDATA =========== ============ =========="},
 	"generic-arrows":     {"страна a → b\u3000x→→y ←", "日本\u3000語 → 'q→' 12"},
 	"csv-wide":           {"日本；語；«q；»»r«\r\nстрана；\"x\"\"y\"；；\n", "a,b；c\r«open；"},
 	"generic-quotes":     {"a «b c« “d“ 'e' \"f\" «open", "x«« ““y «'« “\"“"},
